@@ -2,7 +2,7 @@
 import time, traceback
 import numpy as np
 from . import core, gen
-from .core import (comp_problem, comp_outputs, comp_jacobian, flat_cat, encode_line, run_driver,
+from .core import (quiet, comp_problem, comp_outputs, comp_jacobian, flat_cat, encode_line, run_driver,
                    DriverError, close_vec, close_jac, case_hash)
 from .specs import SPECS
 
@@ -245,4 +245,135 @@ def beam_pipeline_suite(stats, tier=None, n=None, label="pipeline:SpatialBeam"):
         stats.count(label, case_hash("beam", k, nodes), bool(np.any(np.abs(real) > 0)), ("ny=%d" % nodes.shape[0], "symmetry=%s" % s["symmetry"]))
         if k == 0:
             stats.sample(dict(suite=label, ny=int(nodes.shape[0]), symmetry=s["symmetry"], max_disp=float(np.max(np.abs(real)))))
+    return stats
+
+
+# ----------------------------------------------------------------------------------------
+# plain functions of geometry/utils.py vs the model (C14)
+# ----------------------------------------------------------------------------------------
+def meshgen_suite(stats, tier=None, label="function:meshgen"):
+    from openaerostruct.geometry.utils import generate_mesh, getFullMesh, add_chordwise_panels
+    tier = tier or core.TIER
+    grid = [(2, 3), (2, 5), (3, 7), (5, 9), (4, 11)] if tier == "quick" else [(nx, ny) for nx in (2, 3, 4, 6, 9) for ny in (3, 5, 7, 11, 21)]
+    k = 0
+    for (nx, ny) in grid:
+        for sym in (True, False):
+            for rep in range(2 if tier == "quick" else 3):
+                rng = core.rng_for("meshgen", nx, ny, sym, rep); k += 1
+                span = float(rng.uniform(2, 40)); chord = float(rng.uniform(0.3, 5)); s = float(rng.choice([0.0, 1.0, rng.uniform(0, 1)]))
+                cs = float(rng.choice([0.0, 1.0, rng.uniform(0, 1)])); off = rng.normal(size=3) * 3 * float(rng.integers(2))
+                def add(what, real, op, ints, floats, exact=False):
+                    mod = core.model_value(op, ints, floats)
+                    ok, msg = close_vec(np.asarray(real).ravel(), mod, rtol=0.0 if exact else 1e-13, atol=0.0 if exact else 1e-15 * max(span, chord))
+                    if not ok:
+                        stats.disagreements.append(dict(kind="function-value", component=what, size=(nx, ny, sym), detail=msg,
+                                                        seed_keys=["meshgen", nx, ny, sym, rep]))
+                    stats.count(label + ":" + what, case_hash(what, ints, np.asarray(floats, dtype=float)), True, ("num_x=%d" % nx, "num_y=%d" % ny))
+                try:
+                    mesh = np.array(generate_mesh(dict(num_x=nx, num_y=ny, wing_type="rect", symmetry=sym, span=span, root_chord=chord,
+                                                       span_cos_spacing=s, chord_cos_spacing=cs, offset=off)), dtype=float)
+                except Exception as e:
+                    stats.disagreements.append(dict(kind="real-code-exception", component="generate_mesh", size=(nx, ny, sym),
+                                                    detail="%s: %s" % (type(e).__name__, str(e)[:200]), seed_keys=["meshgen", nx, ny, sym, rep]))
+                    continue
+                add("generate_mesh(rect)", mesh, "GenRectMesh", [nx, ny, int(sym)], [span, chord, s, cs] + list(off))
+                half = mesh if sym else mesh[:, : (ny + 1) // 2]
+                hny = half.shape[1]
+                add("getFullMesh(left)", getFullMesh(left_mesh=half), "GetFullMesh", [nx, hny, 1], half.ravel(), exact=True)
+                right = half[:, ::-1].copy(); right[:, :, 1] *= -1
+                add("getFullMesh(right)", getFullMesh(right_mesh=right), "GetFullMesh", [nx, hny, 0], right.ravel(), exact=True)
+                numx = int(rng.integers(2, 8))
+                add("add_chordwise_panels", add_chordwise_panels(half, numx, cs), "AddChordwisePanels", [nx, hny, numx],
+                    np.concatenate([[cs], half.ravel()]))
+                if k == 1:
+                    stats.sample(dict(suite=label, num_x=nx, num_y=ny, symmetry=sym, span=span, chord=chord, span_cos_spacing=s, chord_cos_spacing=cs))
+    return stats
+
+
+# ----------------------------------------------------------------------------------------
+# malformed stream (C20): error kinds of the real set-up code vs the model's decision logic (exact)
+# ----------------------------------------------------------------------------------------
+def _outcome(fn):
+    import warnings as _w
+    try:
+        with quiet(), _w.catch_warnings():
+            _w.simplefilter("ignore")
+            fn()
+        return 0
+    except ValueError:
+        return 1
+    except NameError:
+        return 2
+    except Exception as e:          # any other exception kind is reported as such
+        return "%s" % type(e).__name__
+
+
+def validation_suite(stats, tier=None, label="malformed:validate"):
+    from openaerostruct.geometry.utils import generate_mesh
+    from openaerostruct.structures.struct_groups import SpatialBeamAlone
+    from openaerostruct.integration.aerostruct_groups import AerostructGeometry
+    from openaerostruct.geometry.geometry_group import build_sections
+    from . import pipelines
+    import openmdao.api as om
+    tier = tier or core.TIER
+    n = 40 if tier == "quick" else 300
+    for k in range(n):
+        rng = core.rng_for("validate", k)
+        kind = int(rng.integers(4))
+        if kind == 0:
+            num_y = int(rng.integers(2, 12)); wt = str(rng.choice(["rect", "CRM", "CRM:jig", "CRM:alpha_2.75", "delta", "Rect", "crm", ""]))
+            ints = [0, num_y, int(wt == "rect"), int("CRM" in wt)]
+            real = _outcome(lambda: generate_mesh(dict(num_x=2, num_y=num_y, wing_type=wt, symmetry=bool(rng.integers(2)))))
+            desc = dict(check="generate_mesh", num_y=num_y, wing_type=wt)
+        elif kind == 1:
+            ground = bool(rng.integers(2)); sym = bool(rng.integers(2))
+            ny = 3
+            mesh = gen.rand_mesh(rng, 2, ny, sym)
+            s = pipelines.aero_surface("w", mesh, sym)
+            if ground:
+                s["groundplane"] = True
+            ints = [1, int(ground), int(sym)]
+            real = _outcome(lambda: pipelines.run_aero_point([s], dict(alpha=3.0, v=50.0, rho=1.0, cg=np.zeros(3), height_agl=10.0)))
+            desc = dict(check="ground effect", groundplane=ground, symmetry=sym)
+        elif kind == 2:
+            fem = str(rng.choice(["tube", "wingbox", "wingbox", "box", "Tube", ""]))
+            skin, spar = bool(rng.integers(2)), bool(rng.integers(2))
+            mesh = gen.rand_mesh(rng, 2, 3, True, planar=True, jitter=0.0)
+            s = pipelines.struct_surface("w", mesh, True, fem=fem)
+            if fem == "wingbox":
+                s.update(data_x_upper=np.linspace(0.1, 0.6, 6), data_x_lower=np.linspace(0.1, 0.6, 6),
+                         data_y_upper=np.array([0.05, 0.06, 0.065, 0.065, 0.06, 0.05]), data_y_lower=-np.array([0.05, 0.06, 0.065, 0.065, 0.06, 0.05]),
+                         original_wingbox_airfoil_t_over_c=0.12, strength_factor_for_upper_skin=1.0, t_over_c_cp=np.array([0.12]))
+                s.pop("thickness_cp", None)
+            if skin:
+                s["skin_thickness_cp"] = np.array([0.005, 0.01])
+            if spar:
+                s["spar_thickness_cp"] = np.array([0.004, 0.008])
+            which = int(rng.integers(2))
+            ints = [2, {"tube": 0, "wingbox": 1}.get(fem, 7), int(skin), int(spar)]
+            def build():
+                p = om.Problem(reports=False)
+                p.model.add_subsystem("w", SpatialBeamAlone(surface=s) if which == 0 else AerostructGeometry(surface=s))
+                p.setup()
+            real = _outcome(build)
+            desc = dict(check="structural model", group=["SpatialBeamAlone", "AerostructGeometry"][which], fem_model_type=fem, skin=skin, spar=spar)
+        else:
+            num = int(rng.integers(2, 4)); genm = bool(rng.integers(2))
+            lens = [num] * 6
+            if rng.uniform() < 0.6:
+                lens[int(rng.integers(6))] += int(rng.choice([-1, 1]))
+            lny, lt, ls, lsw, lm, ln = lens
+            surface = dict(name="surface", num_sections=num, sec_name=["s%d" % i for i in range(ln)], symmetry=True,
+                           taper=[1.0] * lt, span=[1.0] * ls, sweep=[0.0] * lsw, root_chord=1.0, nx=2, ny=[3] * lny,
+                           meshes="gen-meshes" if genm else [gen.rand_mesh(rng, 2, 3, True) for _ in range(lm)])
+            ints = [3, num, int(genm), lny, lt, ls, lsw, lm, ln]
+            real = _outcome(lambda: build_sections(surface))
+            desc = dict(check="multi-section lists", num_sections=num, gen_meshes=genm, lengths=lens)
+        mod = int(round(float(core.model_value("Validate", ints, [])[0])))
+        if real != mod:
+            stats.disagreements.append(dict(kind="error-kind", component="validate", size=ints, detail="real %s vs model %s for %s" % (real, mod, desc),
+                                            seed_keys=["validate", k]))
+        stats.count(label, case_hash("validate", ints), True, ("check=%s" % desc["check"], "outcome=%s" % real))
+        if k < 4:
+            stats.sample(dict(suite=label, **desc, outcome=real))
     return stats
